@@ -55,7 +55,9 @@ def run(pid, tier, seed, replay):
         canon.add(json.dumps([c["seed"], c["crash_at"]]))
     return ctx.finish(
         coverage={"input_distribution": dist, "programs": dist.get("programs", 0), "crash_replays": len(crashes), "crash_points_by_operation": points,
-                  "killed_child_comparisons": dist.get("child-kill-compared", 0), "histories_compared_with_model": len(cases), "case_shards": nshards},
+                  "killed_child_comparisons": dist.get("child-kill-compared", 0),
+                  "torn_write_replays": {"log": dist.get("torn/log", 0), "index": dist.get("torn/index", 0),
+                                         "compared_with_model": sum(1 for c in cases for o in c["ops"] if o.get("op") == "crash" and o.get("torn"))}, "histories_compared_with_model": len(cases), "case_shards": nshards},
         samples=[{k: v for k, v in c.items() if k not in ("disk", "ops")} for c in crashes[:2]] or [{}],
         rule="generated programs of 6-17 operations (appends, AppendMessageSet, truncations above the HW, retention cleans by messages/bytes, compactions, HW moves and checkpoints, leader-epoch changes, clean reopens; segment sizes 80 B-1 MB so that most programs roll) are first run to completion counting the crash points they pass; every program is then replayed once per crash-point hit (sampled above the per-program cap): the hook stops the operation there, the files are listed, commitlog.New reopens the directory and the result is judged by the property's words (reopen succeeds; offsets strictly increase; every record read back was appended; everything appended and not being removed is there, also through the index; NewestOffset/OldestOffset agree with what is read; HW not above the one before; epoch history increasing, within the log, and attributing to every record its epoch); the interrupted operation is repeated, five more operations and a clean reopen follow under the C01 read-back oracle; every history is replayed on the Coq crash model (points passed per operation, files after the crash, recovered view, later reads); a watchdog reports operations that do not return; non-trivial = a crash replay; distinct by (program, hit)",
         evaluations=len(crashes), distinct_nontrivial=len(canon), traces=len(cases))
